@@ -50,17 +50,36 @@ func (f *Rem) Call(s *slip.Scope, args slip.List, depth int) (result slip.Object
 	if _, ok := args[1].(slip.Real); !ok {
 		slip.TypePanic(s, depth, "divisor", args[1], "real")
 	}
-	n, d := slip.NormalizeNumber(args[0], args[1])
+	n, d := normalizeReals(args[0], args[1])
 	switch num := n.(type) {
 	case slip.Fixnum:
 		div := int64(d.(slip.Fixnum))
+		if div == 0 {
+			slip.ArithmeticPanic(s, depth, slip.Symbol("/"), args, "divide by zero")
+		}
 		m := int64(num) % div
 		result = slip.Fixnum(m)
 	case *slip.Bignum:
 		div := (*big.Int)(d.(*slip.Bignum))
+		if div.Sign() == 0 {
+			slip.ArithmeticPanic(s, depth, slip.Symbol("/"), args, "divide by zero")
+		}
 		var z big.Int
 		_ = z.Rem((*big.Int)(num), div)
 		result = (*slip.Bignum)(&z)
+	case *slip.Ratio:
+		div := (*big.Rat)(d.(*slip.Ratio))
+		if div.Sign() == 0 {
+			slip.ArithmeticPanic(s, depth, slip.Symbol("/"), args, "divide by zero")
+		}
+		var (
+			q  big.Rat
+			tq big.Int
+			z  big.Rat
+		)
+		_ = q.Quo((*big.Rat)(num), div)
+		_ = q.SetInt(tq.Quo(q.Num(), q.Denom()))
+		result = (*slip.Ratio)(z.Sub((*big.Rat)(num), q.Mul(&q, div)))
 	case slip.Real:
 		div := (d.(slip.Real)).RealValue()
 		nf := num.RealValue()
